@@ -41,6 +41,8 @@ OPS = ("<", "<=", ">", ">=", "=", "==", "!=")
 D_EXTRA = "0.300000000000000000001"
 # ... plus other spellings of the same numbers (a float tag value prints as '1.0', a method literal may read '+1', '1e0', '-0')
 SPELLINGS = ("1.0", "+1", "1e0", "-0")
+# differs from 1 only beyond the 28 significant digits of the default decimal context
+D_BEYOND_CONTEXT = "1.000000000000000000000000000001"
 D_THOROUGH = ("0", "1", "-1", "0.1", "0.3", "0.30000000000000004", D_EXTRA, "100", "12345.678", "1e-9", "1e12", "1E2", "100.0") + SPELLINGS
 D_QUICK = ("0", "1", "0.3", "0.30000000000000004", D_EXTRA) + SPELLINGS
 
@@ -167,6 +169,11 @@ def value_pairs(ua, ub, dom) -> list[tuple[str, str, str]]:
     for a in dom:
         for b in dom:
             add(a, b, "DxD")
+    if ua == ub:
+        # same unit (or none): no conversion is involved, so the comparison is exact whatever the number of digits
+        for a in ("1", "0.3", D_BEYOND_CONTEXT):
+            add(a, D_BEYOND_CONTEXT, "beyond-context-precision")
+            add(D_BEYOND_CONTEXT, a, "beyond-context-precision")
     if related:
         for a in dom:
             for a2 in dom:
